@@ -3,38 +3,118 @@
 // Contracts for the verification machinery in /verif (comment-only; compiled only with -tags verif).
 package types
 
+
+// ---------------------------------------------------------------- abstract store (used by the keeper contracts)
+//
+// The byte-level contracts and lemmas below (property C18) show that the key builders form a free algebra:
+// sections are disjoint, every builder is injective, and big-endian ids keep numeric order.  That licenses the
+// abstraction functions wrk_key / wrk_prefix from key bytes to the datatypes wrkchain.Key / wrkchain.Prefix;
+// the clauses marked `abstracts` state them and are NOT checked against the bodies (they are listed as
+// abstraction steps in the evidence).
+
+//@ prelude
+//@ ;;@ need-type github.com/unification-com/mainchain/x/wrkchain/types.WrkChain
+//@ ;;@ need-type github.com/unification-com/mainchain/x/wrkchain/types.WrkChainBlock
+//@ ;;@ need-type github.com/unification-com/mainchain/x/wrkchain/types.WrkChainStorageLimit
+//@ ;;@ need-type github.com/unification-com/mainchain/x/wrkchain/types.Params
+//@ ;;@ need-marshal github.com/unification-com/mainchain/x/wrkchain/types.WrkChain
+//@ ;;@ need-marshal github.com/unification-com/mainchain/x/wrkchain/types.WrkChainBlock
+//@ ;;@ need-marshal github.com/unification-com/mainchain/x/wrkchain/types.WrkChainStorageLimit
+//@ ;;@ need-marshal github.com/unification-com/mainchain/x/wrkchain/types.Params
+//@ (declare-datatypes ((wrkchain.Key 0)) (((kWrkChain (kWrkChain.id Int)) (kBlock (kBlock.id Int) (kBlock.h Int)) (kLimit (kLimit.id Int)) (kHighest) (kParams) (kOtherW (kOtherW.n Int)))))
+//@ (declare-fun wrk_key ((Slice Int)) wrkchain.Key)
+//@ (define-fun wcHas ((s (Array wrkchain.Key (Slice Int))) (id Int)) Bool (not (sl.nil (select s (kWrkChain id)))))
+//@ (define-fun wcGet ((s (Array wrkchain.Key (Slice Int))) (id Int)) wrkchain.WrkChain (unmarshal.wrkchain.WrkChain (select s (kWrkChain id))))
+//@ (define-fun wcPut ((s (Array wrkchain.Key (Slice Int))) (w wrkchain.WrkChain)) (Array wrkchain.Key (Slice Int)) (store s (kWrkChain (wrkchain.WrkChain.WrkchainId w)) (marshal.wrkchain.WrkChain w)))
+//@ (define-fun blkHas ((s (Array wrkchain.Key (Slice Int))) (id Int) (h Int)) Bool (not (sl.nil (select s (kBlock id h)))))
+//@ (define-fun blkGet ((s (Array wrkchain.Key (Slice Int))) (id Int) (h Int)) wrkchain.WrkChainBlock (unmarshal.wrkchain.WrkChainBlock (select s (kBlock id h))))
+//@ (define-fun blkPut ((s (Array wrkchain.Key (Slice Int))) (id Int) (b wrkchain.WrkChainBlock)) (Array wrkchain.Key (Slice Int)) (store s (kBlock id (wrkchain.WrkChainBlock.Height b)) (marshal.wrkchain.WrkChainBlock b)))
+//@ (define-fun blkDel ((s (Array wrkchain.Key (Slice Int))) (id Int) (h Int)) (Array wrkchain.Key (Slice Int)) (store s (kBlock id h) nilBytes))
+//@ (define-fun limHas ((s (Array wrkchain.Key (Slice Int))) (id Int)) Bool (not (sl.nil (select s (kLimit id)))))
+//@ (define-fun limGet ((s (Array wrkchain.Key (Slice Int))) (id Int)) Int (wrkchain.WrkChainStorageLimit.InStateLimit (unmarshal.wrkchain.WrkChainStorageLimit (select s (kLimit id)))))
+//@ (define-fun unmarshalLimit ((b (Slice Int))) wrkchain.WrkChainStorageLimit (unmarshal.wrkchain.WrkChainStorageLimit b))
+//@ (define-fun limPut ((s (Array wrkchain.Key (Slice Int))) (id Int) (n Int)) (Array wrkchain.Key (Slice Int)) (store s (kLimit id) (marshal.wrkchain.WrkChainStorageLimit (mk.wrkchain.WrkChainStorageLimit id n))))
+//@ (define-fun wrkParamsSet ((s (Array wrkchain.Key (Slice Int)))) Bool (not (sl.nil (select s kParams))))
+//@ (define-fun wrkParams ((s (Array wrkchain.Key (Slice Int)))) wrkchain.Params (unmarshal.wrkchain.Params (select s kParams)))
+//@ (define-fun wrkParamsPut ((s (Array wrkchain.Key (Slice Int))) (p wrkchain.Params)) (Array wrkchain.Key (Slice Int)) (store s kParams (marshal.wrkchain.Params p)))
+//@ (define-fun wrkHighestSet ((s (Array wrkchain.Key (Slice Int)))) Bool (not (sl.nil (select s kHighest))))
+//@ (define-fun wrkHighestIs ((s (Array wrkchain.Key (Slice Int))) (v Int)) Bool (and (not (sl.nil (select s kHighest))) (= (sl.len (select s kHighest)) 8) (= (u64dec (select s kHighest)) v)))
+//@ (define-fun mkBlock ((h Int) (bh Str) (ph Str) (h1 Str) (h2 Str) (h3 Str) (t Int)) wrkchain.WrkChainBlock (mk.wrkchain.WrkChainBlock h bh ph h1 h2 h3 t))
+//@ ; identity of a registration: everything except the three counters
+//@ (define-fun wcSameIdentity ((a wrkchain.WrkChain) (b wrkchain.WrkChain)) Bool (and (= (wrkchain.WrkChain.WrkchainId a) (wrkchain.WrkChain.WrkchainId b)) (= (wrkchain.WrkChain.Moniker a) (wrkchain.WrkChain.Moniker b)) (= (wrkchain.WrkChain.Name a) (wrkchain.WrkChain.Name b)) (= (wrkchain.WrkChain.Genesis a) (wrkchain.WrkChain.Genesis b)) (= (wrkchain.WrkChain.Type a) (wrkchain.WrkChain.Type b)) (= (wrkchain.WrkChain.RegTime a) (wrkchain.WrkChain.RegTime b)) (= (wrkchain.WrkChain.Owner a) (wrkchain.WrkChain.Owner b))))
+//@ ; number of records of a chain held in the store: axiomatised cardinality (standard update axiom)
+//@ (declare-fun blkCount ((Array wrkchain.Key (Slice Int)) Int) Int)
+//@ (assert (forall ((s (Array wrkchain.Key (Slice Int))) (k wrkchain.Key) (v (Slice Int)) (id Int)) (! (= (blkCount (store s k v) id) (ite (and ((_ is kBlock) k) (= (kBlock.id k) id)) (+ (blkCount s id) (ite (sl.nil (select s k)) (ite (sl.nil v) 0 1) (ite (sl.nil v) (- 1) 0))) (blkCount s id))) :pattern ((blkCount (store s k v) id)))))
+//@ (assert (forall ((s (Array wrkchain.Key (Slice Int))) (id Int)) (! (>= (blkCount s id) 0) :pattern ((blkCount s id)))))
+//@ (assert (forall ((s (Array wrkchain.Key (Slice Int))) (id Int) (h Int)) (! (=> (not (sl.nil (select s (kBlock id h)))) (>= (blkCount s id) 1)) :pattern ((select s (kBlock id h)) (blkCount s id)))))
+//@ ; prefixes used for iteration and the iteration order inside a section (justified by the C18 prefix/order lemmas)
+//@ (declare-datatypes ((wrkchain.Prefix 0)) (((pBlocksOf (pBlocksOf.id Int)) (pAllBlocks) (pAllWrkChains) (pOtherW (pOtherW.n Int)))))
+//@ (declare-fun wrk_prefix ((Slice Int)) wrkchain.Prefix)
+//@ (define-fun wrk_inprefix ((p wrkchain.Prefix) (k wrkchain.Key)) Bool
+//@   (ite ((_ is pBlocksOf) p) (and ((_ is kBlock) k) (= (kBlock.id k) (pBlocksOf.id p)))
+//@   (ite ((_ is pAllBlocks) p) ((_ is kBlock) k)
+//@   (ite ((_ is pAllWrkChains) p) ((_ is kWrkChain) k) false))))
+//@ (define-fun wrk_keylt ((a wrkchain.Key) (b wrkchain.Key)) Bool
+//@   (ite (and ((_ is kBlock) a) ((_ is kBlock) b)) (or (< (kBlock.id a) (kBlock.id b)) (and (= (kBlock.id a) (kBlock.id b)) (< (kBlock.h a) (kBlock.h b))))
+//@   (ite (and ((_ is kWrkChain) a) ((_ is kWrkChain) b)) (< (kWrkChain.id a) (kWrkChain.id b)) false)))
+//@ ; every record is stored under the key of its own height
+//@ (define-fun BLK_KEYED ((s (Array wrkchain.Key (Slice Int))) (id Int)) Bool (forall ((h Int)) (! (=> (blkHas s id h) (and (<= 0 h) (< h 18446744073709551616) (= (wrkchain.WrkChainBlock.Height (blkGet s id h)) h))) :pattern ((select s (kBlock id h))))))
+//@ ; representation invariant of one registration (WRK-REC of DESIGN.md 3.2, in counter form)
+//@ (define-fun WRK_INV ((s (Array wrkchain.Key (Slice Int))) (id Int)) Bool
+//@   (let ((w (wcGet s id)))
+//@    (and (= (wrkchain.WrkChain.WrkchainId w) id)
+//@         (BLK_KEYED s id)
+//@         (limHas s id) (<= 1 (limGet s id))
+//@         (= (wrkchain.WrkChain.NumBlocks w) (blkCount s id))
+//@         (<= (wrkchain.WrkChain.NumBlocks w) (limGet s id))
+//@         (forall ((h Int)) (! (=> (blkHas s id h) (and (<= 1 h) (<= (wrkchain.WrkChain.LowestHeight w) h) (<= h (wrkchain.WrkChain.Lastblock w)))) :pattern ((select s (kBlock id h)))))
+//@         (=> (>= (wrkchain.WrkChain.NumBlocks w) 1) (and (blkHas s id (wrkchain.WrkChain.LowestHeight w)) (blkHas s id (wrkchain.WrkChain.Lastblock w))))
+//@         (=> (= (wrkchain.WrkChain.NumBlocks w) 0) (= (wrkchain.WrkChain.LowestHeight w) 0)))))
+//@ ; module invariants: every registration satisfies WRK_INV; ids from the highest id upwards are unused
+//@ (define-fun WRK_ALL ((s (Array wrkchain.Key (Slice Int)))) Bool (forall ((i Int)) (! (=> (and (<= 0 i) (wcHas s i)) (WRK_INV s i)) :pattern ((select s (kWrkChain i))))))
+//@ (define-fun WRK_FRESH ((s (Array wrkchain.Key (Slice Int)))) Bool
+//@   (and (=> (wrkHighestSet s) (= (sl.len (select s kHighest)) 8))
+//@        (forall ((i Int)) (! (=> (and (wrkHighestSet s) (>= i (u64dec (select s kHighest)))) (and (not (wcHas s i)) (not (limHas s i)))) :pattern ((select s (kWrkChain i))) :pattern ((select s (kLimit i)))))
+//@        (forall ((i Int) (h Int)) (! (=> (and (wrkHighestSet s) (>= i (u64dec (select s kHighest)))) (not (blkHas s i h))) :pattern ((select s (kBlock i h)))))))
+//@ end
+
 // ---------------------------------------------------------------- store keys (byte level)
 
 //@ func GetWrkChainIDBytes(wrkChainID) (bz)
 //@   props C18
 //@   nopanic
 //@   ensures len(bz) == 8 && bz != nil && be64at(arr(bz), 0, wrkChainID)
+//@   abstracts u64dec(bz) == wrkChainID
 
 //@ func GetWrkChainIDFromBytes(bz) (id)
 //@   props C18
 //@   requires len(bz) >= 8
 //@   nopanic
-//@   ensures be64at(arr(bz), 0, id)
+//@   ensures be64at(arr(bz), 0, id) && id == u64dec(bz)
 
 //@ func WrkChainKey(wrkChainID) (key)
 //@   props C18
 //@   nopanic
 //@   ensures len(key) == 9 && key != nil && key[0] == 1 && be64at(arr(key), 1, wrkChainID)
+//@   abstracts wrk_key(key) == kWrkChain(wrkChainID)
 
 //@ func WrkChainAllBlocksKey(wrkChainID) (key)
 //@   props C18
 //@   nopanic
 //@   ensures len(key) == 9 && key != nil && key[0] == 2 && be64at(arr(key), 1, wrkChainID)
+//@   abstracts wrk_prefix(key) == pBlocksOf(wrkChainID)
 
 //@ func WrkChainBlockKey(wrkChainID, height) (key)
 //@   props C18
 //@   nopanic
 //@   ensures len(key) == 17 && key != nil && key[0] == 2 && be64at(arr(key), 1, wrkChainID) && be64at(arr(key), 9, height)
+//@   abstracts wrk_key(key) == kBlock(wrkChainID, height)
 
 //@ func WrkChainStorageLimitKey(wrkChainID) (key)
 //@   props C18
 //@   nopanic
 //@   ensures len(key) == 9 && key != nil && key[0] == 3 && be64at(arr(key), 1, wrkChainID)
+//@   abstracts wrk_key(key) == kLimit(wrkChainID)
 
 //@ lemma wrkchain_id_roundtrip [C18]
 //@   vars a uint64
@@ -122,3 +202,8 @@ package types
 //@   ensures @denom err == nil ==> validDenom(p.Denom)
 //@   ensures @fees_positive err == nil ==> p.FeeRegister >= 1 && p.FeeRecord >= 1 && p.FeePurchaseStorage >= 1
 //@   ensures @limits err == nil ==> p.DefaultStorageLimit >= 1 && p.MaxStorageLimit >= 1 && p.DefaultStorageLimit <= p.MaxStorageLimit
+
+//@ global ParamsKey abstracts wrk_key(ParamsKey) == kParams
+//@ global HighestWrkChainIDKey abstracts wrk_key(HighestWrkChainIDKey) == kHighest
+//@ global RegisteredWrkChainPrefix abstracts wrk_prefix(RegisteredWrkChainPrefix) == pAllWrkChains
+//@ global RecordedWrkChainBlockHashPrefix abstracts wrk_prefix(RecordedWrkChainBlockHashPrefix) == pAllBlocks
